@@ -502,7 +502,7 @@ where
 
         // Pruner removes already sampled headers and creates gaps in the ranges.
         // Syncer must ignore those gaps.
-        let synced_ranges = pruned_ranges + &store_ranges;
+        let synced_ranges = pruned_ranges.clone() + &store_ranges;
 
         let next_batch = calculate_range_to_fetch(
             subjective_head_height,
@@ -541,7 +541,15 @@ where
                     return Ok(());
                 }
             }
-            Err(StoreError::NotFound) => {}
+            Err(StoreError::NotFound) => {
+                // The header that bounds the batch was already pruned. Pruner never
+                // removes the edge of a synced range while it is still in the sampling
+                // window, so everything below it is outside of the window too. Without
+                // this check we would keep requesting a batch that can not be inserted.
+                if pruned_ranges.contains(next_batch.end() + 1) {
+                    return Ok(());
+                }
+            }
             Err(e) => return Err(e.into()),
         }
 
